@@ -14,7 +14,42 @@ type FloatV struct {
 	c   float64
 	m   *Term
 	e   int
-	nb  int
+	mag uint64 // |m| <= mag
+}
+
+func satAdd(a, b uint64) uint64 {
+	if a+b < a || a+b > 1<<63 {
+		return 1 << 63
+	}
+	return a + b
+}
+
+func satMul(a, b uint64) uint64 {
+	h, l := bits.Mul64(a, b)
+	if h != 0 || l > 1<<63 {
+		return 1 << 63
+	}
+	return l
+}
+
+func satShl(a uint64, k int) uint64 {
+	if k <= 0 {
+		return a
+	}
+	if k >= 63 || bits.Len64(a)+k > 63 {
+		if a == 0 {
+			return 0
+		}
+		return 1 << 63
+	}
+	return a << uint(k)
+}
+
+func magOfBits(nb int) uint64 {
+	if nb >= 63 {
+		return 1 << 63
+	}
+	return uint64(1) << uint(nb)
 }
 
 type unsupported struct{ msg string }
@@ -27,7 +62,7 @@ func (f *FloatV) String() string {
 	if !f.sym {
 		return fmt.Sprint(f.c)
 	}
-	return fmt.Sprintf("dyad(%s * 2^%d, <2^%d)", f.m, f.e, f.nb)
+	return fmt.Sprintf("dyad(%s * 2^%d, |m|<=%d)", f.m, f.e, f.mag)
 }
 
 func concF(c float64) *FloatV { return &FloatV{c: c} }
@@ -57,26 +92,33 @@ func bitlenI(m int64) int {
 	return bits.Len64(uint64(m))
 }
 
-func (f *FloatV) dyad() (*Term, int, int) {
+func absI(m int64) uint64 {
+	if m < 0 {
+		return uint64(-m)
+	}
+	return uint64(m)
+}
+
+func (f *FloatV) dyad() (*Term, int, uint64) {
 	if f.sym {
-		return f.m, f.e, f.nb
+		return f.m, f.e, f.mag
 	}
 	m, e, ok := dyadOf(f.c)
 	if !ok {
 		unsup("non-finite float in symbolic arithmetic")
 	}
-	return BV(64, uint64(m)), e, bitlenI(m)
+	return BV(64, uint64(m)), e, absI(m)
 }
 
-func mkDyad(m *Term, e, nb int) *FloatV {
+func mkDyad(m *Term, e int, mag uint64) *FloatV {
 	if m.IsConst() {
 		v := sext(m.V, 64)
 		return concF(math.Ldexp(float64(v), e))
 	}
-	if nb > 53 {
-		unsup("dyadic float needs %d mantissa bits (>53): result would not be exact", nb)
+	if mag > 1<<53 {
+		unsup("dyadic float needs %d mantissa bits (>53): result would not be exact", bits.Len64(mag))
 	}
-	return &FloatV{sym: true, m: m, e: e, nb: nb}
+	return &FloatV{sym: true, m: m, e: e, mag: mag}
 }
 
 func shlM(m *Term, k int) *Term {
@@ -87,25 +129,35 @@ func shlM(m *Term, k int) *Term {
 }
 
 // align brings two floats to a common exponent.
-func align(a, b *FloatV) (ma, mb *Term, e, nb int) {
+// align brings two floats to a common exponent; returns the magnitudes of both aligned mantissas.
+func align(a, b *FloatV) (ma, mb *Term, e int, g1, g2 uint64) {
 	m1, e1, n1 := a.dyad()
 	m2, e2, n2 := b.dyad()
 	e = e1
 	if e2 < e {
 		e = e2
 	}
-	if e1-e > 200 || e2-e > 200 {
+	if n1 == 0 {
+		e = e2
+	} else if n2 == 0 {
+		e = e1
+	}
+	if n1 != 0 && e1-e > 200 || n2 != 0 && e2-e > 200 {
 		unsup("dyadic exponents too far apart")
 	}
-	n1 += e1 - e
-	n2 += e2 - e
-	if n1 > 62 || n2 > 62 {
+	g1, g2 = satShl(n1, e1-e), satShl(n2, e2-e)
+	if g1 >= 1<<62 || g2 >= 1<<62 {
 		unsup("dyadic alignment overflows 64 bits")
 	}
-	ma, mb = shlM(m1, e1-e), shlM(m2, e2-e)
-	nb = n1
-	if n2 > nb {
-		nb = n2
+	if n1 == 0 {
+		ma = BV(64, 0)
+	} else {
+		ma = shlM(m1, e1-e)
+	}
+	if n2 == 0 {
+		mb = BV(64, 0)
+	} else {
+		mb = shlM(m2, e2-e)
 	}
 	return
 }
@@ -114,23 +166,23 @@ func fAdd(a, b *FloatV) *FloatV {
 	if !a.sym && !b.sym {
 		return concF(a.c + b.c)
 	}
-	ma, mb, e, nb := align(a, b)
-	return mkDyad(BinBV(OpAdd, ma, mb), e, nb+1)
+	ma, mb, e, g1, g2 := align(a, b)
+	return mkDyad(BinBV(OpAdd, ma, mb), e, satAdd(g1, g2))
 }
 
 func fSub(a, b *FloatV) *FloatV {
 	if !a.sym && !b.sym {
 		return concF(a.c - b.c)
 	}
-	ma, mb, e, nb := align(a, b)
-	return mkDyad(BinBV(OpSub, ma, mb), e, nb+1)
+	ma, mb, e, g1, g2 := align(a, b)
+	return mkDyad(BinBV(OpSub, ma, mb), e, satAdd(g1, g2))
 }
 
 func fNeg(a *FloatV) *FloatV {
 	if !a.sym {
 		return concF(-a.c)
 	}
-	return mkDyad(BinBV(OpSub, BV(64, 0), a.m), a.e, a.nb)
+	return mkDyad(BinBV(OpSub, BV(64, 0), a.m), a.e, a.mag)
 }
 
 func fMul(a, b *FloatV) *FloatV {
@@ -142,10 +194,10 @@ func fMul(a, b *FloatV) *FloatV {
 	}
 	m1, e1, n1 := a.dyad()
 	m2, e2, n2 := b.dyad()
-	if n1+n2 > 62 {
+	if satMul(n1, n2) >= 1<<62 {
 		unsup("dyadic product overflows 64 bits")
 	}
-	return mkDyad(BinBV(OpMul, m1, m2), e1+e2, n1+n2)
+	return mkDyad(BinBV(OpMul, m1, m2), e1+e2, satMul(n1, n2))
 }
 
 func fDiv(a, b *FloatV) *FloatV {
@@ -192,7 +244,7 @@ func fCmp(op Op, a, b *FloatV) *Term {
 			return tFalse
 		}
 	}
-	ma, mb, _, _ := align(a, b)
+	ma, mb, _, _, _ := align(a, b)
 	if op == OpEq {
 		return Eq(ma, mb)
 	}
@@ -204,11 +256,12 @@ func fToInt(a *FloatV) (*Term, int) {
 	if !a.sym {
 		return BV(64, uint64(int64(a.c))), bitlenI(int64(a.c))
 	}
+	anb := bits.Len64(a.mag)
 	if a.e >= 0 {
-		if a.nb+a.e > 62 {
+		if anb+a.e > 62 {
 			unsup("float to int conversion overflows")
 		}
-		return shlM(a.m, a.e), a.nb + a.e
+		return shlM(a.m, a.e), anb + a.e
 	}
 	k := -a.e
 	if k >= 63 {
@@ -217,7 +270,7 @@ func fToInt(a *FloatV) (*Term, int) {
 	neg := Cmp(OpSLt, a.m, BV(64, 0))
 	abs := Ite(neg, BinBV(OpSub, BV(64, 0), a.m), a.m)
 	q := BinBV(OpLShr, abs, BV(64, uint64(k)))
-	nb := a.nb - k
+	nb := anb - k
 	if nb < 0 {
 		nb = 0
 	}
@@ -247,7 +300,7 @@ func fFromInt(t *Term, signed bool) *FloatV {
 		}
 		return concF(float64(m.V))
 	}
-	return mkDyad(m, 0, nb)
+	return mkDyad(m, 0, magOfBits(nb))
 }
 
 // rounding functions: mode 0 floor, 1 ceil, 2 round-half-away, 3 trunc
@@ -272,26 +325,23 @@ func fRoundMode(a *FloatV, mode int) *FloatV {
 		unsup("rounding of tiny dyadic")
 	}
 	kk := BV(64, k)
-	nb := a.nb - int(k) + 1
-	if nb < 1 {
-		nb = 1
-	}
+	mg := a.mag>>k + 1
 	zero := BV(64, 0)
 	switch mode {
 	case 0:
-		return mkDyad(BinBV(OpAShr, a.m, kk), 0, nb)
+		return mkDyad(BinBV(OpAShr, a.m, kk), 0, mg)
 	case 1:
 		// ceil(x) = -floor(-x)
 		n := BinBV(OpSub, zero, a.m)
-		return mkDyad(BinBV(OpSub, zero, BinBV(OpAShr, n, kk)), 0, nb)
+		return mkDyad(BinBV(OpSub, zero, BinBV(OpAShr, n, kk)), 0, mg)
 	case 2:
 		neg := Cmp(OpSLt, a.m, zero)
 		abs := Ite(neg, BinBV(OpSub, zero, a.m), a.m)
 		r := BinBV(OpLShr, BinBV(OpAdd, abs, BV(64, uint64(1)<<(k-1))), kk)
-		return mkDyad(Ite(neg, BinBV(OpSub, zero, r), r), 0, nb)
+		return mkDyad(Ite(neg, BinBV(OpSub, zero, r), r), 0, mg)
 	default:
-		t, n := fToInt(a)
-		return mkDyad(t, 0, n+1)
+		t, _ := fToInt(a)
+		return mkDyad(t, 0, mg)
 	}
 }
 
@@ -300,7 +350,7 @@ func fAbs(a *FloatV) *FloatV {
 		return concF(math.Abs(a.c))
 	}
 	neg := Cmp(OpSLt, a.m, BV(64, 0))
-	return mkDyad(Ite(neg, BinBV(OpSub, BV(64, 0), a.m), a.m), a.e, a.nb)
+	return mkDyad(Ite(neg, BinBV(OpSub, BV(64, 0), a.m), a.m), a.e, a.mag)
 }
 
 func fIte(c *Term, a, b *FloatV) *FloatV {
@@ -313,8 +363,11 @@ func fIte(c *Term, a, b *FloatV) *FloatV {
 	if !a.sym && !b.sym && (a.c == b.c || math.IsNaN(a.c) && math.IsNaN(b.c)) {
 		return a
 	}
-	ma, mb, e, nb := align(a, b)
-	return mkDyad(Ite(c, ma, mb), e, nb)
+	ma, mb, e, g1, g2 := align(a, b)
+	if g2 > g1 {
+		g1 = g2
+	}
+	return mkDyad(Ite(c, ma, mb), e, g1)
 }
 
 // toFloat32 rounds to float32 precision; exact only if the mantissa fits 24 bits.
@@ -322,7 +375,7 @@ func fToFloat32(a *FloatV) *FloatV {
 	if !a.sym {
 		return concF(float64(float32(a.c)))
 	}
-	if a.nb > 24 {
+	if a.mag > 1<<24 {
 		unsup("float32 rounding of symbolic value with >24 mantissa bits")
 	}
 	return a
@@ -368,6 +421,19 @@ func signedBits(t *Term, depth int) int {
 	case OpConcat:
 		// sign carried by the top part
 		r = signedBits(t.A, depth+1) + t.B.W
+	case OpExtract:
+		// low bits of a value that already fits keep the value
+		if t.V == 0 {
+			if sb := signedBits(t.A, depth+1); sb < t.W {
+				r = sb
+			}
+		}
+	case OpBAnd, OpBOr, OpBXor:
+		a, b := signedBits(t.A, depth+1), signedBits(t.B, depth+1)
+		if b > a {
+			a = b
+		}
+		r = a
 	}
 	if r > t.W {
 		r = t.W
